@@ -314,7 +314,8 @@ class Gen:
     if (F7), IV-eliminable loops only with `<` guards and positive multipliers (F4), small
     literals and bounds (F1, F5), shift amounts in 0..31 or a raw parameter (F1)."""
 
-    def __init__(self, rng, helpers=0):
+    def __init__(self, rng, helpers=0, avoid=frozenset(("C02-F1", "C02-F2", "C02-F3", "C02-F4", "C02-F5", "C02-F6", "C02-F7"))):
+        self.avoid = avoid
         self.rng = rng
         self.n = 0
         self.helpers = helpers
@@ -425,14 +426,19 @@ class Gen:
                 out.append(["sif", cond, str(r.below(2)), s1])
             elif k == "while":
                 w, res = self.loop(scope, depth)
-                out.append(w)
+                if w[0] == "seq":
+                    out += w[1]
+                else:
+                    out.append(w)
                 if res:
                     scope.append((res, True))
         return out, scope
 
     def loop(self, scope, depth):
         r = self.rng
-        kind = r.weighted([("count", 5), ("empty", 3), ("obs", 2)])
+        kind = r.weighted([("count", 4), ("empty", 3), ("obs", 2), ("multi", 6)])
+        if kind == "multi":
+            return self.multi_loop(scope, depth)
         g = r.pick(GUARDS)
         inv = {"lt": "ge", "le": "gt", "gt": "le", "ge": "lt"}[g]
         up = g in ("lt", "le")
@@ -486,6 +492,86 @@ class Gen:
         body.append(["bin", ni, "add", i, str(step)])
         return ["while", [[i, i0e, ni], [acc, self.operand(scope), nacc]], body, res], res
 
+    def multi_loop(self, scope, depth):
+        """General induction-variable family: k basic IVs with distinct initial values (literals,
+        parameters, earlier values), strides of either sign, a guard on any one of them, derived
+        variables m*iv+c / (iv+a)*m / iv+c of any of them, live in prints, calls, accumulators and
+        the break value."""
+        r = self.rng
+        k = r.range(2, 3)
+        ivs, lvs, pre = [], [], []
+        used_inits = set()
+        for t in range(k):
+            v, nv = self.fresh("v"), self.fresh("n")
+            while True:
+                init = r.weighted([("lit", 4), ("param", 3), ("scope", 2)])
+                if init == "lit": e = str(r.range(-9, 9))
+                elif init == "param": e = r.pick(["p0", "p1"])
+                else: e = self.operand(scope, lit_ok=False) if scope else "p0"
+                if e not in used_inits:
+                    used_inits.add(e); break
+            st = r.pick([1, 2, 3, 5, -1, -2, -4, 7])
+            ivs.append((v, nv, e, st)); lvs.append([v, e, nv])
+        gi = r.below(k)
+        gv, _, ginit, gst = ivs[gi]
+        up = gst > 0
+        safe_f4 = "C02-F4" in self.avoid
+        print_guard = r.chance(1, 2)
+        if safe_f4 and not print_guard:
+            # the guarded counter may become eliminable: only the shape for which IV elimination is right
+            if not up:
+                gst = -gst; up = True
+                ivs[gi] = (gv, ivs[gi][1], ginit, gst)
+            g = "lt"
+        else:
+            g = r.pick(["lt", "le"]) if up else r.pick(["gt", "ge"])
+        inv = {"lt": "ge", "le": "gt", "gt": "le", "ge": "lt"}[g]
+        trip = r.range(0, 9)
+        cc, res = self.fresh("c"), self.fresh("r")
+        if ginit.lstrip("-").isdigit():
+            be = str(int(ginit) + gst * trip)
+        else:
+            # symbolic start: bound = start + stride*trip computed before the loop (loop invariant)
+            bv = self.fresh("b")
+            pre.append(["bin", bv, "add", ginit, str(gst * trip)])
+            be = bv
+        acc, nacc = self.fresh("a"), self.fresh("n")
+        lvs.append([acc, self.operand(scope), nacc])
+        body = [["bin", cc, inv, gv, be], ["sif", cc, "0", None]]
+        if print_guard:
+            body.append(["call", "print", [gv], "_"])
+        live = []
+        for _ in range(r.range(1, 4)):
+            base = r.pick(ivs)[0]
+            if safe_f4 and not print_guard and base == gv:
+                m = r.pick([1, 2, 3])
+            else:
+                m = r.pick([1, 2, 3, -1, -2, 4, 0, 5])
+            c = r.pick([0, 1, -3, 4, 7, -1])
+            form = r.below(4)
+            d = self.fresh("d")
+            if form == 0:
+                t_ = self.fresh("t"); body += [["bin", t_, "mul", base, str(m)], ["bin", d, "add", t_, str(c)]]
+            elif form == 1:
+                body.append(["bin", d, "add", base, str(c)])
+            elif form == 2:
+                body.append(["bin", d, "mul", base, str(m)])
+            else:
+                t_ = self.fresh("t"); body += [["bin", t_, "add", base, str(c)], ["bin", d, "mul", t_, str(m)]]
+            live.append(d)
+            use = r.below(4)
+            if use == 0: body.append(["call", "print", [d], "_"])
+            elif use == 1 and self.helpers: body.append(["call", f"f{r.range(1, self.helpers)}", [d, str(r.range(0, 3))], "_"])
+            elif use == 2: body.append(["call", "print", [d, base], "_"])
+        body.append(["bin", nacc, r.pick(["add", "xor", "sub"]), acc, r.pick(live)])
+        for v, nv, _, st in ivs:
+            body.append(["bin", nv, "add", v, str(st)])
+        body[1][3] = [["brk", r.pick([acc, acc, r.pick(ivs)[0]])]]
+        w = ["while", lvs, body, res]
+        if pre:
+            return ["seq", pre + [w]], res
+        return w, res
+
     def function(self, name, nparams, size):
         scope = [(f"p{k}", False) for k in range(nparams)]
         body, sc = self.block(scope, 0, size, allow_call=(name == "f0"), no_div=(name != "f0"))
@@ -515,14 +601,112 @@ def pp_program(fns):
     return " ".join(f"fn {f[1]} {f[2]} {pp_stmts(f[3])} ret {f[4]} end" for f in fns)
 
 
-def gen_program(rng):
+def gen_program(rng, avoid=None):
     helpers = rng.pick([0, 0, 1, 2])
-    g = Gen(rng, helpers)
+    g = Gen(rng, helpers) if avoid is None else Gen(rng, helpers, avoid)
     fns = [g.function("f0", 2, rng.range(2, 7))]
     for h in range(1, helpers + 1):
-        gh = Gen(rng.fork(), 0); gh.n = 100 * h
+        gh = Gen(rng.fork(), 0, g.avoid); gh.n = 100 * h
         fns.append(gh.function(f"f{h}", 2, rng.range(1, 4)))
     return fns
+
+
+def gen_source(rng, avoid):
+    """A small samlang module whose tail-recursive functions become `while` loops through the real
+    front end (mir_tail_recursion_rewrite): k counters with distinct starts and strides of either
+    sign, a guard on one of them (either branch order, all four comparison kinds), derived values
+    m*iv+c of any counter printed / accumulated / returned. Returns (text, description)."""
+    r = rng
+    fns = []
+    nw = r.range(1, 2)
+    wsig = []
+    for w in range(nw):
+        k = r.range(2, 3)
+        names = ["i", "j", "k"][:k]
+        strides = [r.pick([1, 2, 3, -1, -2, 5, -4]) for _ in names]
+        gi = r.below(k)
+        print_guard = r.chance(1, 2)
+        if "C02-F4" in avoid and not print_guard:
+            strides[gi] = abs(strides[gi])
+            cont = "<"
+        else:
+            cont = r.pick(["<", "<="]) if strides[gi] > 0 else r.pick([">", ">="])
+        brk = {"<": ">=", "<=": ">", ">": "<=", ">=": "<"}[cont]
+        body = []
+        if print_guard:
+            body.append(f"let _ = Process.println(Str.fromInt({names[gi]}));")
+        accs = []
+        for _ in range(r.range(1, 3)):
+            b = r.below(k)
+            if "C02-F4" in avoid and not print_guard and b == gi:
+                m = r.pick([1, 2, 3])
+            else:
+                m = r.pick([1, 2, 3, -1, -2, 4, 5])
+            c = r.pick([0, 1, -3, 4, 7])
+            e = r.pick([f"{names[b]} * {m} + {c}", f"{names[b]} + {c}", f"{names[b]} * {m}", f"({names[b]} + {c}) * {m}"]).replace("+ -", "- ")
+            if r.chance(2, 3):
+                body.append(f"let _ = Process.println(Str.fromInt({e}));")
+            else:
+                accs.append(e)
+        acc_next = "acc" + "".join(f" + ({e})" for e in accs)
+        rec = ", ".join(f"{n} {'+' if st > 0 else '-'} {abs(st)}" for n, st in zip(names, strides))
+        params = ", ".join(f"{n}: int" for n in names)
+        then_break = r.chance(1, 2)
+        loop_part = "{\n      " + "\n      ".join(body) + f"\n      Main.w{w}({rec}, n, {acc_next})\n    }}"
+        if then_break:
+            text = f"  function w{w}({params}, n: int, acc: int): int =\n    if {names[gi]} {brk} n {{ acc }} else {loop_part}\n"
+        else:
+            text = f"  function w{w}({params}, n: int, acc: int): int =\n    if {names[gi]} {cont} n {loop_part} else {{ acc }}\n"
+        fns.append(text)
+        wsig.append((k, gi, strides[gi]))
+    # run(a, b): distinct, partly symbolic starting values
+    lines = []
+    for w, (k, gi, gst) in enumerate(wsig):
+        starts = []
+        pool = r.shuffle(["a", "b", "a + 7", "b - 3", "b + 11", str(r.range(-6, 6)), "a * 2"])
+        for t in range(k):
+            starts.append(pool[t])
+        trip = r.range(0, 8)
+        bound = f"({starts[gi]}) + {gst * trip}".replace("+ -", "- ")
+        lines.append(f"let r{w} = Main.w{w}({', '.join(starts)}, {bound}, {r.range(-2, 2)});")
+        lines.append(f"let _ = Process.println(Str.fromInt(r{w}));")
+    ret = " + ".join(f"r{w}" for w in range(nw))
+    fns.append("  function run(a: int, b: int): int = {\n    " + "\n    ".join(lines) + f"\n    {ret}\n  }}\n")
+    calls = []
+    grid = [(0, 0), (1, 2), (-1, 3), (7, -8), (100, 5), (-50, 40), (1000000, -7), (3, 2000000)]
+    for a, b in r.shuffle(grid)[:4]:
+        calls.append(f"let _ = Process.println(Str.fromInt(Main.run({a}, {b})));")
+    fns.append("  function main(): unit = {\n    " + "\n    ".join(calls) + "\n  }\n")
+    return "class Main {\n" + "\n".join(fns) + "}\n"
+
+
+def check_sources(ctx, cases, label):
+    """cases: list of (pass, cfg, source text)."""
+    lines = [f"srcprog {p} {c} | | {t.encode().hex()}" for p, c, t in cases]
+    out = run_harness(lines)
+    stats = {"changed": set(), "compared": 0, "lines": 0, "timeouts": 0, "rejected": 0}
+    for (p, c, text), ans in zip(cases, out):
+        if ans.startswith("ok "):
+            kv = dict(x.split("=") for x in ans.split()[1:])
+            stats["compared"] += int(kv["compared"]); stats["lines"] += int(kv["lines"]); stats["timeouts"] += int(kv["timeouts"])
+            if kv["changed"] == "1":
+                stats["changed"].add(text + "@" + p + str(c))
+            continue
+        if ans.startswith("bad-program"):
+            stats["rejected"] += 1
+            if stats["rejected"] <= 1:
+                ctx.violation("generated samlang source rejected by the front end (generator out of date): " + ans[:200],
+                              {"protocol": "srcprog", "label": label, "source": text, "answer": ans}, no_input=True)
+            continue
+        shown = run_harness([f"srcshow {p} {c} | | {text.encode().hex()}"])[0]
+        payload = {"protocol": "srcprog", "label": label, "pass": p, "config_bits": c, "source": text, "answer": ans, "mir": shown}
+        if ans.startswith("panic") and "overflow" in ans and finding(ctx, "C02-F1"):
+            ctx.known(finding(ctx, "C02-F1"))
+        elif ans.startswith("diff"):
+            ctx.violation(f"optimisation pass `{p}` (config {c}) changes the behaviour of MIR compiled from samlang source: {ans[:300]}", payload)
+        else:
+            ctx.violation(f"pass `{p}` (config {c}) fails on MIR compiled from samlang source: {ans[:200]}", payload)
+    return stats
 
 
 ARG_GRID = [(0, 0), (1, 2), (-1, 3), (7, -8), (2, 0), (0, 5), (MAX, 1), (MIN, -1), (MAX - 1, MAX), (MIN + 1, 2),
@@ -959,7 +1143,7 @@ def run(ctx):
     cases, samples = [], []
     pass_hist = {}
     for k in range(nprog):
-        fns = gen_program(rng.fork())
+        fns = gen_program(rng.fork(), frozenset(f["id"] for f in ctx.open_findings))
         args = gen_args(rng)
         for p in FN_PASSES + ["inline"]:
             cases.append((p, 31, args, fns))
@@ -981,10 +1165,34 @@ def run(ctx):
         pstats["changed"] |= s["changed"]
         for k in ("compared", "traps", "timeouts", "lines"):
             pstats[k] += s[k]
+    # 4. MIR compiled from generated samlang sources through the real front end
+    avoid = frozenset(f["id"] for f in ctx.open_findings)
+    nsrc = ctx.scale(120, 1500)
+    scases, src_sample = [], None
+    for k in range(nsrc):
+        text = gen_source(rng.fork(), avoid)
+        src_sample = src_sample or text
+        for p in ["ccp", "loop", "cse", "lvn", "dce", "inline"]:
+            scases.append((p, 31, text))
+        for c in ([rng.below(32), 31] if ctx.quick else [0, 4, 8, 12, 20, 27, 31, rng.below(32)]):
+            scases.append(("rounds", c, text)); scases.append(("all", c, text))
+    sstats = {"changed": set(), "compared": 0, "lines": 0, "timeouts": 0, "rejected": 0}
+    for i in range(0, len(scases), 300):
+        if len(ctx.violations) >= 3:
+            break
+        st = check_sources(ctx, scases[i:i + 300], f"generated seed={ctx.seed}")
+        sstats["changed"] |= st["changed"]
+        for kk in ("compared", "lines", "timeouts", "rejected"):
+            sstats[kk] += st[kk]
     ksample = [{"line": l, "impl_answer": a} for l, a in list(zip(lines, kimpl))[:4]]
     ctx.cov.update({
-        "evaluations": len(lines) + len(cases),
-        "distinct_nontrivial": len(kstats["nontrivial"]) + len(pstats["changed"]),
+        "evaluations": len(lines) + len(cases) + len(scases),
+        "distinct_nontrivial": len(kstats["nontrivial"]) + len(pstats["changed"]) + len(sstats["changed"]),
+        "source_program_cases": len(scases),
+        "source_program_runs_compared": sstats["compared"],
+        "source_program_lines_compared": sstats["lines"],
+        "source_programs_changed_by_pass": len(sstats["changed"]),
+        "source_sample": src_sample,
         "rule": "kernel lines (fold/tgt/merge/trip/flex/order/unwrap/ccp/ivloop/ivorig) over a boundary-heavy 32-bit distribution "
                 "(0, +-1, +-2, MIN, MIN+1, MAX, MAX-1, powers of two, sqrt(MAX), random) answered by the real functions/passes and by the Lean model; "
                 "generated int-only MIR programs (straight-line, if/else with phis, single-if, counting loops of all four guard kinds and both stride "
